@@ -15,6 +15,9 @@ Alphabet == { T("20", "20", "X"), T("50K", "50", "X"), T("20C", "20", "X"), T("7
               [k |-> "C", txt |-> "enddash"],
               [k |-> "C", txt |-> "plain"], [k |-> "C", txt |-> "colon"], [k |-> "C", txt |-> "marker"],
               [k |-> "C", txt |-> "dashy"],
+              \* continuation lines that open like a marker and are none: colon, digits, letter, no closing colon / a
+              \* numbered tag whose digits run to the end of the line
+              [k |-> "C", txt |-> "nearmarker"], [k |-> "C", txt |-> "nearnumbered"],
               [k |-> "D"], [k |-> "B"], [k |-> "J", txt |-> "junk"] }
 
 Init == lines = <<>> /\ st = ScanInit
